@@ -1,12 +1,35 @@
 import subprocess, sys
 REPO="/repo"
 CASES=[
+ # --- second batch: the newer rules ---
+ ("C07","aldor/aldor/src/linear.c","\t\ttl = cdr(tl);\n\t\tif (tl) tl = cdr(tl);","\t\tif (cdr(tl)) tl = cdr(cdr(tl)); else tl = cdr(tl);"),
+ ("C07","aldor/aldor/src/syscmd.c","\t\t\tif (comsgErrorCount() != 0)\n\t\t\t\texitFailure();\n\t\t\texitSuccess();","\t\t\tif (comsgErrorCount())\n\t\t\t\texitFailure();\n\t\t\texitSuccess();"),
+ ("C07","aldor/aldor/src/include.c","\tif (ifState == NoIf)\n\t\treturn addSysCmd(inclError(ALDOR_E_InclUnbalElse), sl);","\tif (NoIf == ifState)\n\t\treturn addSysCmd(inclError(ALDOR_E_InclUnbalElse), sl);"),
+ ("C05","aldor/aldor/src/foam.c","\t\tcase FOAM_EElt:\t\tx1 = 2; x2 =  3; break;\n\t\tcase FOAM_IRElt:\tx1 = 2; x2 = -1; break;","\t\tcase FOAM_IRElt:\tx1 = 2; x2 = -1; break;\n\t\tcase FOAM_EElt:\t\tx1 = 2; x2 =  3; break;"),
+ ("C05","aldor/aldor/src/sexpr.c","\t\t\tif (*str == '\"' || *str == '\\\\')","\t\t\tif (*str == '\\\\' || *str == '\"')"),
+ ("C05","aldor/aldor/src/foam.c","\t\t\t\tbintToPlacevS(bint, &slen, &data);\n\t\t\t\tsi  = slen;","\t\t\t\tbintToPlacevS(bint, &slen, &data);\n\t\t\t\tsi  = (int) slen;"),
+ ("C03","aldor/aldor/src/fint.c","\tfluidValues\t= state-> fluidValues;\n\tlexEnv\t\t= state-> lexEnv;","\tlexEnv\t\t= state-> lexEnv;\n\tfluidValues\t= state-> fluidValues;"),
+ ("C06","aldor/aldor/src/tfsat.c","\t\tresult = tfSat(mask0, tfMapArg(T), tfMapArg(S));","\t\tTForm targ = tfMapArg(T), sarg = tfMapArg(S);\n\t\tresult = tfSat(mask0, targ, sarg);"),
+ ("C06","aldor/aldor/src/ti_bup.c","\t\tablogAndPush(&abCondKnown, &saveCond, test, true);\n\t\tttf = tibup0Within(stab, thenAlt, listNil(Syme), true);\n\t\tablogAndPop (&abCondKnown, &saveCond);","\t\tablogAndPush(&abCondKnown, &saveCond, test, true);\n\t\t{ ttf = tibup0Within(stab, thenAlt, listNil(Syme), true); }\n\t\tablogAndPop (&abCondKnown, &saveCond);"),
+ ("C13","aldor/aldor/src/axlcomp.c","\tcompPhaseScoBind(finfo, stab, ab);\n\tif (comsgErrorCount())\t{\n\t\tif (fintMode == FINT_LOOP) scoSetUndoState();\n\t\treturn ab;\n\t}","\tcompPhaseScoBind(finfo, stab, ab);\n\tif (comsgErrorCount() != 0)\t{\n\t\tif (FINT_LOOP == fintMode) scoSetUndoState();\n\t\treturn ab;\n\t}"),
+ ("C15","aldor/aldor/src/include.c","\t\t  sposGrowGloLineTbl(fileState.curFname, fileState.lineNumber,\n\t\t\t\t     inclSerialLineNo);","\t\t  { sposGrowGloLineTbl(fileState.curFname, fileState.lineNumber,\n\t\t\t\t     inclSerialLineNo); }"),
+ ("C16","aldor/aldor/src/genc.c","\tif (gc0OverSMax()) {\n\t\tFoam\tdecl = gcvConst->foamDDecl.argv[0];\n\t\tglobAName = gc0MultVarId(\"GA\", gcvNBInts, decl->foamDecl.id);\n\t\tglobBName = gc0MultVarId(\"GB\", gcvNBInts, decl->foamDecl.id);\n\t}\n\telse {\n\t\tglobAName = gc0VarId(\"GA\", gcvNBInts);\n\t\tglobBName = gc0VarId(\"GB\", gcvNBInts);\n\t}","\tif (!gc0OverSMax()) {\n\t\tglobAName = gc0VarId(\"GA\", gcvNBInts);\n\t\tglobBName = gc0VarId(\"GB\", gcvNBInts);\n\t}\n\telse {\n\t\tFoam\tdecl = gcvConst->foamDDecl.argv[0];\n\t\tglobAName = gc0MultVarId(\"GA\", gcvNBInts, decl->foamDecl.id);\n\t\tglobBName = gc0MultVarId(\"GB\", gcvNBInts, decl->foamDecl.id);\n\t}"),
+ ("C17","aldor/aldor/src/lib.c","\t\tif( n < LIB_NAME_LIMIT )\n\t\t\tlibNameIndex(lib, n) = i;","\t\tif( n <= LIB_NAME_LIMIT - 1 )\n\t\t\tlibNameIndex(lib, n) = i;"),
+ ("C18","aldor/aldor/src/axlcomp.c","\tcomsgFatal(NULL, ALDOR_F_CantOpenMode, name, mode);","\tcomsgFatal((AbSyn) NULL, ALDOR_F_CantOpenMode, name, mode);"),
+ ("C12","aldor/aldor/src/java/javacode.c","\tjc0PrintOperand(ctxt, thisClss, lhs, thisClss->assoc == JCO_RL);","\tjc0PrintOperand(ctxt, thisClss, lhs, JCO_RL == thisClss->assoc);"),
+ ("C08","aldor/aldor/src/genc.c","\tgcvNBInts = 0;\n\tgcvNRRFmt = 0;","\tgcvNRRFmt = 0;\n\tgcvNBInts = 0;"),
+ ("C02","aldor/aldor/src/of_comex.c","\t\tcseGenExpDeeply(stmt, bb);\n\n\t\tif (cseIsDef(stmt))","\t\tcseGenExpDeeply(stmt, bb);\n\t\tif (cseIsDef(stmt) != 0)"),
+ ("C09","aldor/aldor/src/store.c","\tnpcs  = (npages*PgSize)/nbytes;","\tnpcs  = (int) ((npages*PgSize)/nbytes);"),
+ ("C10","aldor/aldor/src/btree.c","                        btreeDelete0(x->part[i+1].branch, ok, &oe, btfree);\n                        x->part[i].key   = ok;\n                        x->part[i].entry = oe;","                        btreeDelete0(x->part[i+1].branch, ok, &oe, btfree);\n                        x->part[i].entry = oe;\n                        x->part[i].key   = ok;"),
+ ("C19","aldor/aldor/src/xfloat.c","\tif (expon == XDF_ExponMin && !hasFrac) {\n\t\tdfAssemble(pdf, sign, DF_ExponMin, pb);","\tif (!hasFrac && expon == XDF_ExponMin) {\n\t\tdfAssemble(pdf, sign, DF_ExponMin, pb);"),
+ ("C04","aldor/aldor/src/of_cfold.c","\t\tfoam = foamNewBool((argv[0]->foamSInt.SIntData % 2) != 0);","\t\tfoam = foamNewBool(0 != (argv[0]->foamSInt.SIntData % 2));"),
+
  ("C07","aldor/aldor/src/util.c","\tslen = (ndigs <= radixBits) ? ndigs : radixBits;","\tslen = ndigs;\n\tif (slen > radixBits) slen = radixBits;"),
  ("C06","aldor/aldor/src/tinfer.c","\tconditionAbLog = ablogTrue();\n\tfor (tmpSefo = condition;","\tfor (conditionAbLog = ablogTrue(), tmpSefo = condition;"),
  ("C10","aldor/aldor/src/store.c","\t\t\tnb = SectionHeadSize +\n\t\t\t     nq * (sizeof(QmInfo) + MixedSizeQuantum);","\t\t\tnb = nq * (MixedSizeQuantum + sizeof(QmInfo)) + SectionHeadSize;"),
  ("C02","aldor/aldor/src/of_deadv.c","\t\tif (dvLocals[index].used != DV_Used &&\n\t\t    dvLocals[index].used != DV_DefinedSdEfx)","\t\tif (dvLocals[index].used < DV_DefinedSdEfx)"),
  ("C05","aldor/aldor/src/foam.c","\t\tix[0] = foamArgv(foam)[0].data;\n\t\tix[1] =\t\t\t    foamArgv(foam)[x1].data;","\t\tix[1] =\t\t\t    foamArgv(foam)[x1].data;\n\t\tix[0] = foamArgv(foam)[0].data;"),
- ("C13","aldor/aldor/src/scan.c","      case '_':\n\tsawEscape = true;\n\tbreak;\n      case '\"':\n\tif (! sawEscape) inStringLiteral = false;","      case ESC_CHAR:\n\tsawEscape = true;\n\tbreak;\n      case '\"':\n\tinStringLiteral = false;"),
+ 
  ("C07","aldor/aldor/src/abcheck.c","\tif (!abHasTag(dest, AB_Apply) || abApplyArgc(dest) < 1) {","\tif (abTag(dest) != AB_Apply || abApplyArgc(dest) == 0) {"),
  ("C03","aldor/aldor/src/ccode.c","\t\tcc += ccoPrExpr(ccoArgv(cco)[0], iPrec +!isLtoR);","\t\tcc += ccoPrExpr(ccoArgv(cco)[0], isLtoR ? iPrec : iPrec + 1);"),
  ("C18","aldor/aldor/src/lib.c","\tLIB_SEEK(lib, long0);\n\tFILE_PUT_CHARS(lib->file, bufChars(buf), bufPosition(buf));","\tLIB_SEEK(lib, (long) 0);\n\tFILE_PUT_CHARS(lib->file, bufChars(buf), bufPosition(buf));"),
